@@ -140,7 +140,7 @@ func c08GenState(rt *rapid.T, rs *gen.RuleSet, cfg gen.StateCfg) *facts.State {
 }
 
 func TestC08(t *testing.T) {
-	col := stats.New("C08", "stateful (model-based) generation: one knowledge-base instance of a generated rule set (pairwise distinct saliences; Retract, Complete, probes and counted action statements) receives a drawn history of up to 8 calls - Execute to quiescence or Complete, Execute with MaxCycle 1-2 (cycle limit), Execute with the k-th probe invocation panicking (action error, possibly after a Retract), ExecuteWithContext cancelled from inside the k-th probe invocation, ExecuteWithContext with a live context, FetchMatchingRules - each with its own freshly generated facts and data context. Oracle per call: the trace of the call on the reused instance is validated from a fresh model (nothing retracted, nothing remembered, not complete: fresh single-rule truth of every evaluation, every rule evaluated, conflict resolution, per-firing reference replay), FetchMatchingRules must return exactly the fresh-true rules, and for calls without injected fault the firing sequence, result class and final facts must equal those of the same call on a brand-new instance. A clause that also fails on the new instance is not attributed to reuse. Non-trivial: a call at position >= 2 of a history in which an earlier call retracted a rule or ended abnormally (Complete, error, cycle limit, cancellation). Distinct by rule text + history.")
+	col := stats.New("C08", "stateful (model-based) generation: one knowledge-base instance of a generated rule set (pairwise distinct saliences; Retract, Complete, probes and counted action statements) receives a drawn history of up to 8 calls - Execute to quiescence or Complete, Execute with MaxCycle 1-2 (cycle limit), Execute with the k-th probe invocation panicking (action error, possibly after a Retract), ExecuteWithContext cancelled from inside the k-th probe invocation, ExecuteWithContext with a live context, FetchMatchingRules - each with its own freshly generated facts and data context. Oracle per call: the trace of the call on the reused instance is validated from a fresh model (nothing retracted, nothing remembered, not complete: fresh single-rule truth of every evaluation, every rule evaluated, conflict resolution, per-firing reference replay), FetchMatchingRules must return exactly the fresh-true rules, and for calls without injected fault the firing sequence, result class and final facts must equal those of the same call on a brand-new instance. A clause that also fails on the new instance is not attributed to reuse. A quarter of the calls leave the JSON fact and/or some top-level variables out of their data context. Non-trivial: a call at position >= 2 of a history in which an earlier call retracted a rule or ended abnormally (Complete, error, cycle limit, cancellation), or which lacks a fact an earlier call supplied. Distinct by rule text + history.")
 	defer col.Flush()
 	_ = flag.Set("rapid.steps", "8")
 	rc := fullRuleCfg()
@@ -161,11 +161,24 @@ func TestC08(t *testing.T) {
 			rt.Fatalf("harness: %v", err)
 		}
 		hist := &c08Case{Rules: gast.EncodeRules(base.Rules), Text: base.Text, SoloTexts: base.SoloTexts}
-		earlierAbnormal, earlierRetract := false, false
+		earlierAbnormal, earlierRetract, earlierFull := false, false, false
 		var summaries []string
 		step := func(op string) func(*rapid.T) {
 			return func(rt *rapid.T) {
 				st := c08Step{Op: op, Init: c08GenState(rt, rs, rc.State), MaxCycle: 30}
+				// a call does not have to supply every fact an earlier call supplied: a quarter of the calls
+				// leave out the JSON fact and/or some top-level variables (rules that mention them then fail
+				// to evaluate in this call, on a new instance as on the reused one)
+				omitted := false
+				if rapid.IntRange(0, 3).Draw(rt, "omit_facts") == 0 {
+					for _, name := range []string{"J", "N", "N2", "Q", "TS", "TB"} {
+						if rapid.IntRange(0, 2).Draw(rt, "omit_"+name) == 0 {
+							delete(st.Init.JSON, name)
+							delete(st.Init.Top, name)
+							omitted = true
+						}
+					}
+				}
 				switch op {
 				case "execLimit":
 					st.MaxCycle = uint64(rapid.IntRange(1, 2).Draw(rt, "maxcycle"))
@@ -178,8 +191,16 @@ func TestC08(t *testing.T) {
 				hist.Steps = append(hist.Steps, st)
 				v, abn, retr, sum := c08Apply(base, prep, kb, st)
 				summaries = append(summaries, sum)
-				nt := len(hist.Steps) >= 2 && (earlierAbnormal || earlierRetract)
+				nt := len(hist.Steps) >= 2 && (earlierAbnormal || earlierRetract || (omitted && earlierFull))
 				labels := []string{"op:" + op, fmt.Sprintf("position:%d", len(hist.Steps))}
+				if omitted {
+					labels = append(labels, "call_without_some_fact")
+					if earlierFull {
+						labels = append(labels, "call_without_a_fact_an_earlier_call_supplied")
+					}
+				} else {
+					defer func() { earlierFull = true }()
+				}
 				if earlierRetract {
 					labels = append(labels, "after_retracting_call")
 				}
